@@ -36,6 +36,7 @@ BASES = {
     "thorough": {2: (4, 5), 3: (3, 4, 3)},
 }
 D0 = datetime.datetime(2023, 5, 1, 12, 0, 0)
+DSTEP = datetime.timedelta(hours=25, milliseconds=250)  # more than a day, with a sub-second part (exact in binary)
 
 
 def describe(tier):
@@ -71,7 +72,7 @@ def base_image(dim, shape, payload, tk, origin):
         full = full + (nt,)
         kw["series"] = True
         if tk == "dated":
-            kw["date"] = [D0 + datetime.timedelta(hours=k) for k in range(nt)]
+            kw["date"] = [D0 + k * DSTEP for k in range(nt)]
             kw["reference_date"] = D0 - datetime.timedelta(hours=1)
         elif tk == "times":
             kw["time"] = [0.0, 2.5, 7.0]
@@ -108,6 +109,11 @@ def run_bfs(case, r):
 
     # reference state: (lo tuple, hi tuple, tsel) ; tsel: None (not a series), ("list", [idx..]) or ("one", idx)
     ref0 = (tuple([0] * dim), shape, ("list", tuple(range(nt))) if nt else None)
+    # the base image's own relative times, from the reference model (not from the library)
+    if tk == "dated":
+        r.check(list(base.time) == [3600.0 + k * 90000.25 for k in range(nt)], "C02/construct/time/dated", "relative time of a dated series = (date - reference date) in seconds", got=base.time)
+    elif tk == "times":
+        r.check(list(base.time) == [0.0, 2.5, 7.0], "C02/construct/time/times", "explicit relative times are stored as given", got=base.time)
 
     def ref_step(ref, op):
         lo, hi, ts = ref
@@ -278,7 +284,7 @@ def run_assemble(case, r):
     for k in range(n):
         kw = {"space_dim": dim, "scalar": payload == "scalar", "dimensions": [vs[a] * shape[a] for a in range(dim)], "origin": [3.0, -2.0, 5.0][:dim]}
         if tk == "dated":
-            kw["date"] = D0 + datetime.timedelta(hours=k)
+            kw["date"] = D0 + k * DSTEP
             kw["reference_date"] = D0
         elif tk == "times":
             kw["time"] = 10.0 * k
@@ -299,10 +305,12 @@ def run_assemble(case, r):
         return
 
     def want_time(k):
-        # relative time of original k, shifted by the offset handed to append()
-        if originals[k].time is None:
+        # relative time of original k (reference model: seconds since the shared reference
+        # date, or the explicit time), shifted by the offset handed to append()
+        if tk == "notime":
             return None
-        return originals[k].time + (offset if (offset and k > 0) else 0)
+        t = 90000.25 * k if tk == "dated" else 10.0 * k
+        return t + (offset if (offset and k > 0) else 0)
 
     for k in range(n):
         sl = series.time_slice(k)
